@@ -414,8 +414,53 @@ func failedThenAgain() {
 	}
 	vrt.Observe("dials=%d open=%d", vnet.Dials["tcp://b"], vnet.OpenClientConns("tcp://b"))
 }
+// twoReferences: two goroutines turn the same object reference into a proxy
+// (Session.Object) and call the same method with different arguments while
+// both calls are in flight: each gets its own answer (the proxies share the
+// pooled connection and its message numbering).
+func twoReferences() {
+	w := start(false)
+	w.impl.Gate = make(chan struct{})
+	vrt.Explore()
+	res := make([]int32, 2)
+	errs := make([]error, 2)
+	var ws []*vrt.Thread
+	for i := 0; i < 2; i++ {
+		i := i
+		ws = append(ws, vrt.GoWorker(fmt.Sprintf("g%d", i), func() {
+			p, err := w.sess.Object(w.ref)
+			if err != nil {
+				errs[i] = err
+				return
+			}
+			res[i], errs[i] = probe.MakeProbe(w.sess, p).Slow(int32(11 + i))
+		}))
+	}
+	vrt.Quiesce() // one slow() is held by the gate, the other waits in the mailbox
+	for i, t := range ws {
+		if t.Done() && errs[i] == nil {
+			vrt.Failf("answer-of-another-call/object-reference", "g%d returned %d while the object was still held by the gate", i, res[i])
+		}
+	}
+	close(w.impl.Gate)
+	vrt.Quiesce()
+	fx.Settle(ws...)
+	for i := range ws {
+		if errs[i] != nil {
+			vrt.Failf("request-failed/Probe-by-reference", "g%d: %v", i, errs[i])
+		} else if res[i] != probe.EchoResult(int32(11+i)) {
+			vrt.Failf("answer-of-another-call/object-reference", "g%d called slow(%d) through its own proxy of the object reference and received %d; its own arguments give %d", i, 11+i, res[i], probe.EchoResult(int32(11+i)))
+		}
+	}
+	if n := vnet.OpenClientConns("tcp://b") - 1; n > 1 {
+		vrt.Failf("duplicate-connection/tcp://b", "the session holds %d open connections to tcp://b", n)
+	}
+	vrt.Observe("res=%v", res)
+}
 
 func init() {
+	reg.Register(&reg.Scenario{Property: "C19", Name: "two-object-references-in-flight", Body: twoReferences, Quick: 1, Thorough: 2,
+		Doc: "two goroutines obtain Object(reference to Probe) from the session and call slow(11) / slow(12), both in flight behind a gate: each receives its own answer over the shared connection"})
 	reg.Register(&reg.Scenario{Property: "C19", Name: "hung-endpoint", Body: hung, Quick: 1, Thorough: 2,
 		Doc: "one goroutine asks for a service whose endpoint accepts but never answers; two others ask for a healthy new endpoint and for the pooled directory connection: they are served"})
 	reg.Register(&reg.Scenario{Property: "C19", Name: "failed-request-then-requests", Body: failedThenAgain, Quick: 1, Thorough: 2,
